@@ -91,8 +91,14 @@ impl Harness for Adapt {
                             check_members("node_identifiers", n, &ids, &|b| $node_in(b), true);
                         }
                         for x in 0..n {
-                            // neighbors of x are only specified for nodes of the adapted graph
                             if !decide(&$node_in(x)) {
+                                // x is not a node of the adapted graph: what is asked is that the traits agree with each other
+                                let nb: Vec<usize> = (&ad).neighbors(x).collect();
+                                let out: Vec<usize> = (&ad).neighbors_directed(x, Direction::Outgoing).collect();
+                                let inc: Vec<usize> = (&ad).neighbors_directed(x, Direction::Incoming).collect();
+                                if nb != out || (nb.is_empty() != inc.is_empty() && nb.is_empty()) {
+                                    fail("excluded_node/traits_agree", &format!("node {} is filtered out: neighbors {:?}, neighbors_directed(Outgoing) {:?}, neighbors_directed(Incoming) {:?}", x, nb, out, inc));
+                                }
                                 continue;
                             }
                             let nb: Vec<usize> = (&ad).neighbors(x).collect();
@@ -151,12 +157,26 @@ impl Harness for Adapt {
                         let ad = Reversed(g);
                         walk!(&ad, |_i| t.clone(), |i, j| a(j, i), true);
                         walk_edges!(&ad, |_i| t.clone(), |i, j| a(j, i));
+                        let m = ad.adjacency_matrix();
+                        for i in 0..n {
+                            for j in 0..n {
+                                let got = ad.is_adjacent(&m, i, j);
+                                check_d("is_adjacent/exact", &if got { a(j, i) } else { not(&a(j, i)) }, &format!("Reversed: is_adjacent({}, {}) = {}", i, j, got));
+                            }
+                        }
                     }
                     Stack::RevRev => {
                         let inner = Reversed(g);
                         let ad = Reversed(&inner);
                         walk!(&ad, |_i| t.clone(), |i, j| a(i, j), true);
                         walk_edges!(&ad, |_i| t.clone(), |i, j| a(i, j));
+                        let m = ad.adjacency_matrix();
+                        for i in 0..n {
+                            for j in 0..n {
+                                let got = ad.is_adjacent(&m, i, j);
+                                check_d("is_adjacent/exact", &if got { a(i, j) } else { not(&a(i, j)) }, &format!("Reversed(Reversed): is_adjacent({}, {}) = {}", i, j, got));
+                            }
+                        }
                     }
                     Stack::Undir => {
                         let ad = UndirectedAdaptor(g);
@@ -253,10 +273,30 @@ impl Harness for Adapt {
         match self.stack {
             Stack::NodeF => nbrs!(NodeFiltered::from_fn(&g, |x| kn[x.index()])),
             Stack::EdgeF => nbrs!(EdgeFiltered::from_fn(&g, |e| ke[e.source().index()][e.target().index()])),
-            Stack::Rev => nbrs!(Reversed(&g)),
+            Stack::Rev => {
+                nbrs!(Reversed(&g));
+                let ad = Reversed(&g);
+                let mx = ad.adjacency_matrix();
+                for i in 0..n {
+                    for j in 0..n {
+                        if ad.is_adjacent(&mx, NodeIndex::new(i), NodeIndex::new(j)) != want_arc(i, j) {
+                            bad.push(format!("Reversed(&graph).is_adjacent({}, {}) = {}, but the reversed graph {} the edge {}->{}", i, j, !want_arc(i, j), if want_arc(i, j) { "has" } else { "does not have" }, i, j));
+                        }
+                    }
+                }
+            }
             Stack::RevRev => {
                 let i = Reversed(&g);
-                nbrs!(Reversed(&i))
+                nbrs!(Reversed(&i));
+                let ad = Reversed(&i);
+                let mx = ad.adjacency_matrix();
+                for x in 0..n {
+                    for y in 0..n {
+                        if ad.is_adjacent(&mx, NodeIndex::new(x), NodeIndex::new(y)) != want_arc(x, y) {
+                            bad.push(format!("Reversed(Reversed(&graph)).is_adjacent({}, {}) = {}", x, y, !want_arc(x, y)));
+                        }
+                    }
+                }
             }
             Stack::Undir => nbrs!(UndirectedAdaptor(&g)),
             Stack::RevNodeF => {
@@ -283,7 +323,7 @@ impl Harness for Adapt {
         if bad.is_empty() {
             Replay::NotReproduced(format!("{} ({})", desc, check))
         } else {
-            Replay::Reproduced(format!("adaptor/{:?}-wrong-neighbors", self.stack), format!("{}: {}", desc, bad.join("; ")))
+            Replay::Reproduced(format!("adaptor/{:?}-{}", self.stack, if bad.iter().any(|b| b.contains("is_adjacent")) { "wrong-adjacency-matrix" } else { "wrong-neighbors" }), format!("{}: {}", desc, bad.join("; ")))
         }
     }
 }
@@ -459,7 +499,9 @@ fn host_history(h: &HostConsistency, bit: &mut dyn FnMut(&str) -> bool) -> Vec<S
                 }
                 HostKind::Matrix => {
                     let mut g: MatrixGraph<(), u8, std::collections::hash_map::RandomState, $ty, Option<u8>, u16> = MatrixGraph::default();
+                    // two extra ids below the live ones: either, both (adjacent vacancies) or none is removed
                     let x0 = g.add_node(());
+                    let x1 = g.add_node(());
                     let at: Vec<_> = (0..n).map(|_| g.add_node(())).collect();
                     for (k, &(a, b)) in pairs.iter().enumerate() {
                         if present[k] {
@@ -468,6 +510,9 @@ fn host_history(h: &HostConsistency, bit: &mut dyn FnMut(&str) -> bool) -> Vec<S
                     }
                     if hole_first {
                         g.remove_node(x0);
+                    }
+                    if hole_mid {
+                        g.remove_node(x1);
                     }
                     matrix_view(&g, h.directed, &mut bad);
                 }
@@ -545,6 +590,10 @@ fn matrix_view<Ty: EdgeType>(g: &MatrixGraph<(), u8, std::collections::hash_map:
     let ids: Vec<_> = g.node_identifiers().collect();
     if ids.len() != g.node_count() {
         bad.push(format!("node_identifiers {:?} vs node_count {}", ids, g.node_count()));
+    }
+    let refs: Vec<_> = g.node_references().map(|r| r.id()).collect();
+    if refs != ids {
+        bad.push(format!("node_references {:?} vs node_identifiers {:?}", refs, ids));
     }
     let all: Vec<(usize, usize)> = g.edge_references().map(|e| (e.source().index(), e.target().index())).collect();
     if all.len() != g.edge_count() {
